@@ -74,6 +74,9 @@ def main(argv=None):
         return r.returncode
 
     t0 = time.time()
+    if not args.no_evidence:
+        # replay files always describe the latest run
+        shutil.rmtree(os.path.join(ROOT, 'replays', prop), ignore_errors=True)
     sys.path[:0] = [REPO, ROOT, DEPS]
     os.environ['PYTHONHASHSEED'] = '0'
     mod = importlib.import_module(f'checks.{prop.lower()}')
